@@ -59,6 +59,85 @@ CHECKS = {
         note="Trusted: Lean kernel + 3 axioms; lark's LALR/contextual lexer re-modelled by hand; dict de-duplication keyed by object identity; "
              "model tied to /repo by correspondence only. Partial: no parse_render theorem.",
         design="5/C07"),
+    "C03": dict(
+        technique="Lean 4 proof: registry state machine (id assignment, detach, replace, duplicate, _deserialize, weak-value gc) preserves the invariant by induction over operation histories, for an arbitrary digest function + op-by-op differential correspondence with the real NODE_REGISTRY",
+        text="Theorems (any history, any digest function incl. colliding ones): registry keys pairwise distinct, lookup under k returns a node whose id is k, "
+             "detached nodes are never returned, after every operation only live nodes are registered (inv_step, inv_run, regLive_run); every live, "
+             "not-detached node is registered under its own id (liveRegistered_run) — for as_obj under the decidable hypothesis that no forced "
+             "serialized id is occupied (the excluded point is known finding F19, with a decide-checked witness and a replay on the real code in every run); "
+             "freshId returns a free key (pigeonhole: the fuel of the unique-id search suffices) and the base digest itself when that is free; a raising "
+             "replace leaves the registry unchanged. Correspondence: after each op of random histories (ID_DIGEST_SIZE 1/2/8) the whole registry, "
+             "liveness of every object ever created, sampled get(strict/non-strict) and outcomes are compared with the model; the live-registered clause "
+             "is also evaluated directly on the real objects.",
+        note="Trusted: Lean kernel + 3 axioms; CPython refcounting/gc and WeakValueDictionary semantics (quiescent points); digests are inputs of the model; "
+             "model tied to node.py by correspondence. Partial: liveRegistered for as_obj needs noClash (F19 known finding).",
+        design="5/C03"),
+    "C04": dict(
+        technique="Lean 4 proof on the registry machine: _deserialize re-uses registered originals, re-creates the others under their serialized ids with classes/shape/sharing preserved and never overwrites a live foreign entry + round-trip oracle on the real code (4 formats x options x liveness x fresh process)",
+        text="Theorems: deser_reuse(_all) (registered originals come back as the identical objects, state unchanged), deser_fresh_ids/Realizes (nodes whose id is free are "
+             "new, registered under exactly the serialized id, same class, children in order), deser_shared (a node occurring twice is one shared object), "
+             "deser_never_overwrites_live (under noClash). Partial by nature: mashumaro's generated codecs and orjson/msgpack/PyYAML are third-party and only "
+             "exercised: every generated tree (all property kinds, all origin kinds incl. No* singletons, shared subtrees, ids with collision suffixes) is "
+             "round-tripped in dict/JSON/MessagePack/YAML with originals all alive / none / random subtrees / in a fresh process and compared position by "
+             "position (identity or class, id, content_id, props, origin; sharing; == original).",
+        note="Trusted: third-party codecs decode what they encode (exercised); property-value codec not modelled; index-based source serialization not yet exercised; "
+             "registry half tied by the C03 correspondence (as_obj histories).",
+        design="5/C04"),
+    "C09": dict(
+        technique="Lean 4 proof: implementation-shaped accept / _transform_children / generic_visit model = nearest-MRO dispatch and bottom-up rewrite spec; identity of unchanged subtrees, new ancestors of changes + differential correspondence with generated visitor classes",
+        text="Theorems (all trees, all rule tables): dispatch = nearest class in the MRO (strict: own class only), transform = bottom-up rewrite T, unchanged subtree is the "
+             "very same object (unchanged tree returns itself), every generic-dispatched ancestor of a change is a new object, removed tuple elements dropped in order, "
+             "removed single children become None, input untouched. Correspondence: visitors generated with type() from rule tables (keep/rewrite/replace/remove/raise, "
+             "strict and non-strict, methods on base classes only) on zoo trees; result compared structurally with identity tokens.",
+        note="Trusted: Lean kernel + 3 axioms; dataclasses.replace semantics; hand-written model tied by correspondence; transform_eq_spec assumes distinct field names per node.",
+        design="5/C09"),
+    "C10": dict(
+        technique="Lean 4 proof: frame theorem on the registry machine (no step changes a pre-existing heap record) + frame monitor on the real code after every public operation",
+        text="Theorems: heap_frame / heap_frame_all / heap_frame_run: every pre-existing object record (class, id, digest, children) is unchanged by every operation of any history; "
+             "only as_obj may set the id of an object it created in the same step. The theorem is thin by construction (append-only heap); the weight is on the monitor: "
+             "before/after every operation of random histories (registry ops, traversals, Tree queries, xpath, patterns, visitors and raising transformers, 4 serializers, "
+             "==, hash, rich) every field of every pre-existing live node is re-read by identity and hash() compared; setattr/delattr on every field of every zoo class must raise.",
+        note="Trusted: CPython frozen dataclasses / object.__setattr__ discipline; the monitor is exploration of the real code (callbacks assumed not to mutate nodes).",
+        design="5/C10"),
+    "C11": dict(
+        technique="Lean 4 proof: model of typing.py's classification (hasNode / valid child / valid property, two-phase check, NewType unwrapping, override merge) = inductive shape predicates, for every annotation term + differential correspondence on generated class definitions (plain/postponed, Optional spellings, inheritance)",
+        text="Theorems (all Ty terms, structural induction): classify = child iff ChildShape, = prop iff no node and no mutable collection mentioned, else reject; exactly one verdict; "
+             "no node hidden in a property; invariance under NewType wrapping; class-level outcome and inherited/overridden fields. Correspondence: class definitions "
+             "rendered from random (depth<=3) and exhaustive (depth<=2) Ty terms in 4 spellings and inheritance chains; verdict + get_child_fields/get_property_fields membership.",
+        note="Trusted: typing-module introspection (get_type_hints/get_origin/get_args), mashumaro's own refusals excluded from generation; model tied by correspondence.",
+        design="5/C11"),
+    "C13": dict(
+        technique="Lean 4 proof: model of is_instance in code order = conformance relation of the statement, invalid_fields = filter of non-conforming fields + differential correspondence on an (annotation, value) matrix and node constructions with the switch on/off",
+        text="Theorems (all values, all accepted annotations outside listed don't-cares): isInstance = conforms (bool not int, int for float, None only where allowed, tuples element-wise / exact length, "
+             "literals, unions, NewType at any depth, mappings), invalid_fields exact, switch off => no validation and same node. Correspondence: exhaustive depth<=2 in thorough.",
+        note="Trusted: Lean kernel + 3 axioms; don't-cares: bool offered for float, Literal members == across kinds; model tied by correspondence.",
+        design="5/C13"),
+    "C14": dict(
+        technique="Lean 4 proof on the registry machine: duplicate creates only new registered objects with ids unused by registered originals and an isomorphic copy; replace / dataclasses.replace id and registration post-conditions + op-by-op correspondence and oracles on the real objects",
+        text="Theorems: dup_fresh, dup_copy, dup_independent, replace_new_id (original unregistered, new id = freshId without the original; the original's id when the digest is unchanged), "
+             "dcReplace_new_id (original stays registered, new id differs). Real-code oracles in every history: duplicate == original with equal content_id/props/origin at every position, "
+             "all nodes new/registered/ids disjoint; unchanged init fields are the very same objects; registration effects; compared op by op with the model.",
+        note="Trusted: dataclasses.replace semantics; digests are inputs; tied by correspondence.",
+        design="5/C14"),
+    "C15": dict(
+        technique="Lean 4 proof over definitions REGENERATED from origin.py by a Python-AST->Lean translator on every run (interval laws by grind) + hand model of merge/concat/MultiOrigin + exhaustive-grid differential correspondence",
+        text="Theorems about the generated kernels (validity, containment partial order, overlap symmetric incl. touching, a<b iff end<start, hull contains/commutative/associative/idempotent) and the "
+             "hand model (flat multi-origins listing the non-empty operands in order, NoOrigin/single cases, same-source overlapping code origins add to the hull with exact get_raw slice, fqn composition). "
+             "A semantic change of a kernel breaks a proof obligation; the in-process oracles then search the grid for the failing input.",
+        note="Trusted: the translator (validated by running generated definitions against the real methods on the grid), Python comparison reflection rule; == level laws under coherence of points.",
+        design="5/C15"),
+    "C16": dict(
+        technique="Lean 4 proof: model of the process-global option state with try/finally reset and of the recursive (de)serialization hooks; reset_after for every outcome, output-shape theorems by induction on the object tree + differential correspondence on call sequences with injected failures",
+        text="Theorems: globals are default after every call whether it returned or raised at any nested object; each call's output depends only on its own arguments; with key sorting every nested mapping "
+             "lists the tag first and the rest sorted; with tag suppression no nested mapping carries a tag; by default every object except No* placeholders / index references does; explorer dialect lists child fields.",
+        note="Trusted: mashumaro hook protocol; model tied by correspondence (sequences of 2-6 calls, every option subset, failures at every nested position).",
+        design="5/C16"),
+    "C20": dict(
+        technique="Lean 4 proof: legacy dfs/bfs/gather loops simulate the C05 loops (start node offered like any position), legacy xpath match = `sat` via the C07 reversal theorem, calculate_xpath spells chains + differential correspondence on legacy trees",
+        text="Theorems: ldfs/lbfs/lgather = [start offered to filter/prune] ++ C05 spec (skip_self: exactly the C05 spec), legacy match = documented semantics along the parent chain (all index digits), "
+             "token-level parse/render for the legacy transformer, calculate_xpath assigns exactly the chain spellings. Character-level lexer modelled and exercised, not proved.",
+        note="Trusted: C18 invariant (parent/field/index agree with storage) on attached trees; lark re-modelled; tied by correspondence.",
+        design="5/C20"),
 }
 
 TODO_REASON = "check not built yet in this revision (planned, see DESIGN.md section 5); no claim is made"
